@@ -31,7 +31,7 @@ import (
 
 func init() { generators = append(generators, genLocks) }
 
-const repoTemplateDir = "/repo/template"
+var repoTemplateDir = repoRoot() + "/template"
 
 var lkWalkedFiles = []string{"template.go", "escape.go"}
 
